@@ -114,6 +114,21 @@ theorem empty_value_is_not_absent (path : Path) (st : St) (k : Bytes) (res : Lis
     simp [hpresent] at h0 h1
     rw [h0, h1]
 
+/-- Every read path that answers gives the same answer: the embedded and the gRPC client, fast path or command
+    path, cannot be told apart by the results of a multi-key read. -/
+theorem get_multi_path_independent (p q : Path) (st : St) (keys : List Bytes) (rp rq : List (Option Bytes))
+    (hp : getMulti p st keys = some rp) (hq : getMulti q st keys = some rq) : rp = rq := by
+  obtain ⟨lp, ip⟩ := get_multi_aligned p st keys rp hp
+  obtain ⟨lq, iq⟩ := get_multi_aligned q st keys rq hq
+  apply List.ext_getElem? ; intro i
+  rw [ip i, iq i]
+
+/-- A key requested twice gets the same result at both positions (whatever the path). -/
+theorem get_multi_duplicates_agree (path : Path) (st : St) (keys : List Bytes) (res : List (Option Bytes))
+    (h : getMulti path st keys = some res) (i j : Nat) (hij : keys[i]? = keys[j]?) : res[i]? = res[j]? := by
+  obtain ⟨_, hi⟩ := get_multi_aligned path st keys res h
+  rw [hi i, hi j, hij]
+
 /-! non-vacuity: duplicates + missing + empty value on the sparse path -/
 def demoSt : St := put (put [] [0x61] []) [0x62] [0x79]
 example : getMulti .grpcCmd demoSt [[0x61], [0x63], [0x61], [0x62]] = some [some [], none, some [], some [0x79]] := by
